@@ -560,6 +560,11 @@ func (g *game) Start() error {
 		return ErrNoDeck
 	}
 
+	// Deck must cover the hole cards, three burned cards and the board
+	if len(g.gs.Meta.Deck) < g.GetPlayerCount()*g.gs.Meta.HoleCardsCount+8 {
+		return ErrNoDeck
+	}
+
 	// Initializing game status
 	g.gs.Status.Pots = make([]*pot.Pot, 0)
 	g.gs.Status.Board = make([]string, 0)
